@@ -194,3 +194,68 @@ package client
 //@   ensures [C17] serial-roundtrip: res4 == nil && nulFree(subject) ==> res1 == seq && res2 == subject
 //@   ensures [C17] serial-roundtrip-payload: res4 == nil && subject != "log" && nulFree(subject) ==> res3 == res0[17:len(res0)-2]
 //@   ensures [C17] serial-roundtrip-log: res4 == nil && subject == "log" ==> res3 == res0[17:]
+
+// ---- cobs-wrapper.go (C16) ---------------------------------------------------------------
+// The device is an infinite byte stream sig(dev, 0), sig(dev, 1), ... of which devPos(dev) bytes have been
+// delivered; each device Read delivers the next c >= 0 bytes (any segmentation, any content, so also any
+// damage). U(cw, k) is the k-th byte not yet handed to the decoder: the leftover buffer followed by the rest
+// of the stream. The asserts at the two decoder calls are the framing property: the bytes handed to the decoder
+// are exactly the unconsumed stream up to the next delimiter that follows a non-zero byte, and what follows
+// is preserved for the next call.
+
+//@ model func devPos(d io.ReadWriteCloser) int
+//@ spec func sig(d io.ReadWriteCloser, k int) byte
+//@ spec func left(cw *CobsWrapper) []byte = bbuf(&cw.readLeftover)
+//@ spec func U(cw *CobsWrapper, k int) byte = ite(k < len(left(cw)), left(cw)[k], sig(cw.dev, devPos(cw.dev) + k - len(left(cw))))
+//@ spec func zerosOnlyLead(b []byte, n int) bool = forall j int, k int :: 0 <= j && j < k && k < n && b[j] != 0 ==> b[k] != 0
+//@ spec func someNonZero(b []byte, n int) bool = exists k int :: 0 <= k && k < n && b[k] != 0
+
+//@ extern io.(ReadWriteCloser).Read(self, p)
+//@   modifies self, p
+//@   ensures res1 == nil ==> 0 <= res0 && res0 <= len(p) && devPos(self) == old(devPos(self)) + res0
+//@   ensures res1 == nil ==> (forall j int :: offOf(p) <= j && j < offOf(p) + res0 ==> arrAt(p, j) == sig(self, old(devPos(self)) + j - offOf(p)))
+//@   ensures res1 == nil ==> (forall j int :: j < offOf(p) || j >= offOf(p) + res0 ==> arrAt(p, j) == old(arrAt(p, j)))
+
+//@ func cobsDecodeInplace
+//@   props C16
+//@   modifies b
+//@   ensures [C16] 0 <= res0 && res0 <= len(b)
+//@   loop 1:
+//@     invariant 0 <= iIn && iIn <= len(b) && 0 <= iOut && len(b) > 2
+//@     invariant (foundStart ==> iOut < iIn) && (!foundStart ==> iOut == 0)
+//@     modifies b
+//@     decreases len(b) - iIn
+
+//@ spec func frameIs(cw *CobsWrapper, b []byte, n int) bool = forall k int :: 0 <= k && k < n ==> b[k] == old(U(cw, k))
+//@ spec func restIs(cw *CobsWrapper, n int) bool = forall k int :: 0 <= k ==> U(cw, k) == old(U(cw, k + n))
+
+//@ func (*CobsWrapper).Read
+//@   props C16
+//@   requires cw != nil && len(b) == cw.maxMessageLength && len(b) >= 3 && bufOK(&cw.readLeftover) && len(left(cw)) <= len(b) && refOf(b) != refOf(cw.readLeftover.buf)
+//@   modifies cw, cw.dev, b, cw.readLeftover.buf
+//@   realloc cw.readLeftover.buf
+//@   assert [C16] leftover-frame: frameIs(cw, b, i) && old(U(cw, i)) == 0 && someNonZero(b, i) && zerosOnlyLead(b, i) at "cobsDecodeInplace(b[0:i])"
+//@   assert [C16] leftover-rest: restIs(cw, i) && len(left(cw)) <= len(b) at "cobsDecodeInplace(b[0:i])"
+//@   assert [C16] stream-frame: frameIs(cw, b, cur+i+1) && b[cur+i] == 0 && someNonZero(b, cur+i) && zerosOnlyLead(b, cur+i) at "cobsDecodeInplace(b[0 : cur+i+1])"
+//@   assert [C16] stream-rest: restIs(cw, cur+i+1) && len(left(cw)) <= len(b) at "cobsDecodeInplace(b[0 : cur+i+1])"
+//@   loop 1:
+//@     invariant 0 <= i && i <= len(lb) && sameSlice(lb, left(cw)) && len(lb) <= len(b) && cur == 0
+//@     invariant sameSlice(left(cw), old(left(cw))) && devPos(cw.dev) == old(devPos(cw.dev)) && cw.dev == old(cw.dev) && cw.maxMessageLength == old(cw.maxMessageLength)
+//@     invariant forall k int :: 0 <= k && k < len(lb) ==> lb[k] == old(U(cw, k))
+//@     invariant (foundStart <==> someNonZero(lb, i)) && zerosOnlyLead(lb, i)
+//@     decreases len(lb) - i
+//@   loop 2:
+//@     invariant 0 <= cur && cur <= len(b) && cur >= old(len(left(cw))) && len(left(cw)) == 0 && bufOK(&cw.readLeftover) && sameSlice(cw.readLeftover.buf, old(cw.readLeftover.buf)) && cw.dev == old(cw.dev) && cw.maxMessageLength == old(cw.maxMessageLength)
+//@     invariant devPos(cw.dev) == old(devPos(cw.dev)) + cur - old(len(left(cw)))
+//@     invariant frameIs(cw, b, cur)
+//@     invariant (foundStart <==> someNonZero(b, cur)) && zerosOnlyLead(b, cur)
+//@     invariant forall k int :: 0 <= k && k < cur && someNonZero(b, k) ==> b[k] != 0
+//@     modifies b, cw.dev, cw, cw.readLeftover.buf
+//@   loop 3:
+//@     invariant 0 <= i && i <= c && 0 <= cur && cur + c <= len(b) && cur >= old(len(left(cw))) && len(left(cw)) == 0 && bufOK(&cw.readLeftover) && sameSlice(cw.readLeftover.buf, old(cw.readLeftover.buf)) && cw.dev == old(cw.dev) && cw.maxMessageLength == old(cw.maxMessageLength)
+//@     invariant devPos(cw.dev) == old(devPos(cw.dev)) + cur + c - old(len(left(cw)))
+//@     invariant frameIs(cw, b, cur + c)
+//@     invariant (foundStart <==> someNonZero(b, cur+i)) && zerosOnlyLead(b, cur+i)
+//@     invariant forall k int :: 0 <= k && k < cur+i && someNonZero(b, k) ==> b[k] != 0
+//@     modifies cw, cw.readLeftover.buf
+//@     decreases c - i
